@@ -16,5 +16,10 @@ for p in sorted(glob.glob(os.path.join(root, "seeded/*/meta.json"))):
     first = fmt(m["first_checks_run"])[0] if m.get("first_checks_run") else ("missed" if m.get("history") else "same")
     own = sid.split("-")[0]
     notmiss = (" (not: " + ", ".join(miss) + ")") if miss and hit != "—" else ""
-    hist = ("yes — " + re.sub(r"\s+", " ", m["history"])[:220].replace("|", "/")) if m.get("history") else ""
+    h = m.get("history")
+    if isinstance(h, list):
+        h = " / ".join(x if isinstance(x, str) else json.dumps(x) for x in h)
+    elif h is not None and not isinstance(h, str):
+        h = json.dumps(h)
+    hist = ("yes — " + re.sub(r"\s+", " ", h)[:260].replace("|", "/")) if h else ""
     print("| %s | %s | %s | %s%s | %s | %s |" % (sid, s, "yes" if m.get("confirmed") else "NO", hit, notmiss, first, hist))
